@@ -170,6 +170,47 @@ struct Acc {
     bad: Vec<Violation>,
 }
 
+/// Every tree with `sizes` nodes over `alpha`: all C07 obligations.
+fn sweep_alphabet(rep: &mut Report, alpha: &TreeAlphabet, sizes: std::ops::RangeInclusive<usize>, key: &str) {
+    let mut g = TreeGen::new(alpha.clone());
+    let mut per_size = vec![];
+    for size in sizes {
+        let acc = g.par_visit_exact(
+            size,
+            Acc::default,
+            |acc, t| {
+                thread_local! { static CTX3: SymbolicContext = context(); }
+                acc.n += 1;
+                if t.scope_ok(&mut vec![], &network_props()) {
+                    acc.accepted += 1;
+                }
+                if let Some(what) = CTX3.with(|ctx| check(t, ctx)) {
+                    acc.nbad += 1;
+                    if acc.bad.len() < 10 {
+                        acc.bad.push(Violation { case: json!({"kind": "prep", "tree": t}), what: format!("input {}: {what}", t.render()), size: t.size() });
+                    }
+                }
+            },
+            |mut a, b| {
+                a.n += b.n;
+                a.accepted += b.accepted;
+                a.nbad += b.nbad;
+                a.bad.extend(b.bad);
+                a
+            },
+        );
+        per_size.push(json!({"nodes": size, "trees": acc.n, "accepted_by_scope_rules": acc.accepted}));
+        rep.evaluations += acc.n;
+        rep.distinct_nontrivial += acc.accepted;
+        rep.add_count("failing_trees", acc.nbad);
+        let mut bad = acc.bad;
+        bad.sort_by_key(|v| v.size);
+        rep.violations.extend(bad.into_iter().take(15));
+    }
+    rep.set(&format!("{key}_trees_per_size"), json!(per_size));
+    rep.set(&format!("{key}_alphabet"), json!(alpha.describe()));
+}
+
 pub fn run(tier: &str) -> Result<Report, String> {
     let mut rep = Report::new("C07", tier, "exploration");
     let s_max = if tier == "quick" { 5 } else { 6 };
@@ -257,6 +298,13 @@ pub fn run(tier: &str) -> Result<Report, String> {
     }
     rep.set("tiny_alphabet_trees_per_size", json!(per_size2));
     rep.set("tiny_alphabet", json!(tiny.describe()));
+    // third pass: quantifiers WITH domains over two names (re-quantification inside a scope by a quantifier that has
+    // a domain, domains on the outer / the inner / both quantifiers, jumps in between): 1..5 (6) nodes
+    {
+        let s = |v: &[&str]| v.iter().map(|x| x.to_string()).collect::<Vec<_>>();
+        let dom_alpha = TreeAlphabet { consts: vec![], props: s(&["a"]), vars: s(&["x", "y"]), wilds: vec![], doms: s(&["d"]), un: vec![Un::AX], bi: vec![Bi::And], quant: vec![Hy::Bind, Hy::Exists, Hy::Forall], jump: true };
+        sweep_alphabet(&mut rep, &dom_alpha, 1..=(if tier == "quick" { 5 } else { 6 }), "domain_alphabet");
+    }
     // hand-picked shapes beyond the node bound: names equal to the internal ones in permuted order
     let special = [
         "!{xx}: !{x}: !{xxx}: (@{x}: {xx}) & (@{xxx}: {x})",
@@ -364,6 +412,6 @@ pub fn run(tier: &str) -> Result<Report, String> {
     }
     rep.sample(json!({"input": "(!{xx}: (3{x}: (@{xx}: {x})))", "expected_output": "(!{x}: (3{xx}: (@{x}: {xx})))"}));
     rep.sample(json!({"input": "(!{x}: (@{y}: a))", "expected": "Err (jump target y is free)"}));
-    rep.rule = format!("every tree with 1..{s_max} nodes over {} printed, parsed by the library and preprocessed against the extended symbolic context (2 spare variable sets) of a parametrised network with variables a,b: accepted iff the independent scope checker accepts; output must equal the tree renamed by nesting depth, be de-Bruijn-equal to the input, have #quantified names = nesting depth = collect_unique_hctl_vars, consistent stored text, and be a fixed point of preprocessing; then every tree with up to 8 (thorough 9) nodes over the binder-focused tiny alphabet {{a, x, y, AX, &, !, 3, @}}; plus {} longer hand-written shapes and 24 deep nests (7..12, 20, 40 quantifiers on one branch, fresh names / names equal to the internal ones in reverse order); plus every name of a symbolic variable of that context that is not a network variable (spare state variables, parameter variables) used as a proposition in 5 surroundings, as a tree and (where the syntax can spell it) as text: must be rejected; plus six networks built with RegulatoryGraph::new whose variables are declared in non-lexicographic order (b,a / c,a,b / v0..v11 / ...): every (pair of) variable names and near-miss names in 4 surroundings is accepted iff all are network variables; distinct_nontrivial = number of distinct accepted (well-scoped) trees", alpha.describe(), special.len());
+    rep.rule = format!("every tree with 1..{s_max} nodes over {} printed, parsed by the library and preprocessed against the extended symbolic context (2 spare variable sets) of a parametrised network with variables a,b: accepted iff the independent scope checker accepts; output must equal the tree renamed by nesting depth, be de-Bruijn-equal to the input, have #quantified names = nesting depth = collect_unique_hctl_vars, consistent stored text, and be a fixed point of preprocessing; then every tree with up to 8 (thorough 9) nodes over the binder-focused tiny alphabet {{a, x, y, AX, &, !, 3, @}}; then every tree with up to 5 (6) nodes over the domain-focused alphabet {{a, x, y, AX, &, @, and ! / 3 / V each without and with the domain %d%}}; plus {} longer hand-written shapes and 24 deep nests (7..12, 20, 40 quantifiers on one branch, fresh names / names equal to the internal ones in reverse order); plus every name of a symbolic variable of that context that is not a network variable (spare state variables, parameter variables) used as a proposition in 5 surroundings, as a tree and (where the syntax can spell it) as text: must be rejected; plus six networks built with RegulatoryGraph::new whose variables are declared in non-lexicographic order (b,a / c,a,b / v0..v11 / ...): every (pair of) variable names and near-miss names in 4 surroundings is accepted iff all are network variables; distinct_nontrivial = number of distinct accepted (well-scoped) trees", alpha.describe(), special.len());
     Ok(rep)
 }
